@@ -606,8 +606,8 @@ func c12Fanout(p *Prog, rp *Report) {
 				if sv == nil {
 					continue
 				}
-				nm, _ := sv.F[fieldIndex(structOf(hasherT), "name")].(string)
-				tag := hashTag(out[0], sv.F[fieldIndex(structOf(hasherT), "hash")])
+				nm, _ := sv.F[fieldIndex(structOf(hasherT), roleField(hasherT, "string", "name"))].(string)
+				tag := hashTag(out[0], sv.F[fieldIndex(structOf(hasherT), roleField(hasherT, "hash.Hash", "hash"))])
 				if nm != req[i] || !strings.HasPrefix(tag, hashCtors[req[i]]+"#") {
 					problems = append(problems, fmt.Sprintf("%v: hasher %d is named %q and uses %s, want %q", req, i, nm, tag, req[i]))
 				}
